@@ -180,6 +180,10 @@ def run(report, tier: str, seed: int, clauses: Tuple[str, ...], log_name: str):
                 if not ref_known:
                     continue
                 if got[0] != exp[0]:
+                    if "errors" in clauses and "accept" not in clauses and exp[0] == "err":
+                        # every violated rule must be reported: a datum the rules reject was accepted,
+                        # so the entries for its violations are missing altogether
+                        fail("errors-missing", f"accepted although the statement's rules give the errors {exp[1]!r}")
                     if "accept" in clauses:
                         fail("accept-mismatch", f"{'accepted' if got[0] == 'ok' else 'rejected'} but the statement's rules say {'conforming' if exp[0] == 'ok' else 'not conforming'}")
                     continue
